@@ -259,4 +259,4 @@ def _siblings(run, P):
             run.violation("F-TABLE/dual-siblings", c, where(f), "; ".join(probs))
         else:
             run.holds("F-TABLE/dual-siblings", c, where(f, ft), "dual = from_topology(face_lon, face_lat, construct_dual(grid))")
-    _get_dual_dims(run, P)
+    _get_dual_dims(run, P, partial_rule=False)
